@@ -166,7 +166,8 @@ def r4_3(cx):
     def remaining(e):
         # the same sum counted down: a budget that starts at `count` and loses the length of each stable slice
         alts = [x.strip() for x in phi_alts(e)]
-        return bool(alts) and all(x.kind == 'param' or (x.kind == 'binop' and x.op == 'Sub' and stable_len(x.b) and x.a.strip().kind in ('param', 'local', 'phi'))
+        # (0 is the budget once a slice covers what is left: allowed as a value, the guard below decides where)
+        return bool(alts) and all(x.kind == 'param' or x.is_const_int(0) or (x.kind == 'binop' and x.op == 'Sub' and stable_len(x.b) and x.a.strip().kind in ('param', 'local', 'phi'))
                                   for x in alts) and any(x.kind == 'param' for x in alts)
     kinds = set()
     for alt in phi_alts(a):
@@ -181,7 +182,7 @@ def r4_3(cx):
             kinds.add('count-minus-what-is-left')
         else:
             kinds.add('other:' + show(alt)[:60])
-    cx.check(kinds in ({'0', 'count', 'sum-of-stable-slices'}, {'count', 'count-minus-what-is-left'}), 'advance-clamped', f, cs[0].loc(),
+    cx.check(kinds in ({'0', 'count', 'sum-of-stable-slices'}, {'count', 'count-minus-what-is-left'}, {'count-minus-what-is-left'}), 'advance-clamped', f, cs[0].loc(),
              'byte budget in {0, sums of stable_prefix() slice lengths, count} (or the same sum counted down from count)',
              fail_detail='advance_slices hands consume_by_bytes %s' % sorted(kinds))
     # `count` only where the current stable slice covers the rest
@@ -195,6 +196,13 @@ def r4_3(cx):
                     if rel and rel[0] == 'Ge' and stable_len(rel[1]) and \
                             ((rel[2].strip().kind == 'binop' and rel[2].strip().op == 'Sub' and rel[2].strip().a.strip().kind == 'param') or remaining(rel[2])):
                         okc = True
+    if not okc:
+        # count-down form: what is left becomes 0 (the budget becomes `count`) only where len(stable slice) >= what is left
+        for pos, st in f.statements():
+            if st['k'] == 'assign' and not st['pl']['p'] and st['rv']['k'] == 'use' and f.rvalue_expr(st['rv']).is_const_int(0) and f.locals[st['pl']['l']] == 'usize' \
+                    and st['pl']['l'] not in range(0, f.argc + 1):
+                if any((rel := as_relation((e, val))) and rel[0] == 'Ge' and stable_len(rel[1]) and remaining(rel[2]) for e, val, ed in f.facts_at(pos.bb)):
+                    okc = True
     cx.check(okc, 'advance-count-guard', f, None, 'the budget becomes `count` only where len(stable slice) >= count - consumed so far',
              fail_detail='advance_slices can take `count` without a stable slice covering it')
     pf = prog.fn(CI + '::pop_front')
